@@ -1,5 +1,6 @@
 import InfluxQL.Model.OpsChecked
 import InfluxQL.Lemmas.Regex
+import InfluxQL.Lemmas.ReduceEval
 /-!
 Lemmas about the checked models of `Model/OpsChecked.lean`: the primitives succeed inside their
 bounds, the `make`-and-fill loop computes `map`, and the loop invariants behind the theorems of
@@ -533,5 +534,425 @@ theorem rewriteRegexCondition_eq (parseRe : Str → Option Rx.Regex) (c : Option
   cases c with
   | none => rfl
   | some e => rw [rewriteRegexCondition, rewriteRegexExpr_eq]; rfl
+
+/-! ## `Eval` and `Reduce`: the checked models compute the total models of C09 -/
+
+section
+variable {F : Type} (A : FloatAlg F) (S : StrAlg)
+
+theorem evalIntLHS_eq (ifd : Bool) (op : BinOp) (l : Int) (rhs : Value F) :
+    evalIntLHS A ifd op l rhs = .ok (InfluxQL.evalIntLHS A ifd op l rhs) := by
+  cases rhs <;> try rfl
+  case int r =>
+    cases op <;> try rfl
+    case div =>
+      cases ifd
+      · simp only [evalIntLHS, InfluxQL.evalIntLHS, Bool.false_eq_true, if_false]
+        split
+        · rfl
+        · rename_i h; rw [divI64_ok _ _ _ (by simpa using h)]; rfl
+      · rfl
+    case mod =>
+      simp only [evalIntLHS, InfluxQL.evalIntLHS]
+      split
+      · rfl
+      · rename_i h; rw [remI64_ok _ _ _ (by simpa using h)]; rfl
+  case uint r =>
+    cases op <;> try rfl
+    case div =>
+      simp only [evalIntLHS, InfluxQL.evalIntLHS]
+      split
+      · rfl
+      · rename_i h; rw [divU64_ok _ _ _ (by simpa using h)]; rfl
+    case mod =>
+      simp only [evalIntLHS, InfluxQL.evalIntLHS]
+      split
+      · rfl
+      · rename_i h; rw [remU64_ok _ _ _ (by simpa using h)]; rfl
+
+theorem evalUintLHS_eq (op : BinOp) (l : Nat) (rhs : Value F) (hr : int64Ok rhs) :
+    evalUintLHS A op l rhs = .ok (InfluxQL.evalUintLHS A op l rhs) := by
+  cases rhs <;> try rfl
+  case int r =>
+    have hz : r ≠ 0 → toU64 r ≠ 0 := fun h h' => h ((C09.toU64_eq_zero hr).1 h')
+    cases op <;> try rfl
+    case div =>
+      simp only [evalUintLHS, InfluxQL.evalUintLHS]
+      split
+      · rfl
+      · rename_i h; rw [divU64_ok _ _ _ (hz (by simpa using h))]; rfl
+    case mod =>
+      simp only [evalUintLHS, InfluxQL.evalUintLHS]
+      split
+      · rfl
+      · rename_i h; rw [remU64_ok _ _ _ (hz (by simpa using h))]; rfl
+  case uint r =>
+    cases op <;> try rfl
+    case div =>
+      simp only [evalUintLHS, InfluxQL.evalUintLHS]
+      split
+      · rfl
+      · rename_i h; rw [divU64_ok _ _ _ (by simpa using h)]; rfl
+    case mod =>
+      simp only [evalUintLHS, InfluxQL.evalUintLHS]
+      split
+      · rfl
+      · rename_i h; rw [remU64_ok _ _ _ (by simpa using h)]; rfl
+
+theorem nilCast_int64Ok {a b : Value F} (ha : int64Ok a) (hb : int64Ok b) :
+    int64Ok (nilCast a b).1 ∧ int64Ok (nilCast a b).2 := by
+  cases a <;> cases b <;> simp_all [nilCast, int64Ok]
+
+theorem evalBin_eq (ifd : Bool) (op : BinOp) (a b : Value F) (ha : int64Ok a) (hb : int64Ok b) :
+    evalBin A S ifd op a b = .ok (InfluxQL.evalBin A S ifd op a b) := by
+  have h := nilCast_int64Ok ha hb
+  unfold evalBin InfluxQL.evalBin
+  generalize nilCast a b = p at h
+  obtain ⟨x, y⟩ := p
+  cases x <;> try rfl
+  case int l => exact evalIntLHS_eq A ifd op l y
+  case uint l => exact evalUintLHS_eq A op l y h.2
+
+theorem cmpDefault_int64Ok (op : BinOp) : int64Ok (cmpDefault op : Value F) := by
+  cases op <;> simp [cmpDefault, int64Ok]
+
+theorem evalFloatOp_int64Ok (op : BinOp) (l r : F) : int64Ok (evalFloatOp A op l r) := by
+  cases op <;> simp only [evalFloatOp, cmpDefault] <;> (try split) <;> simp [int64Ok]
+
+theorem evalIntLHS_int64Ok (ifd : Bool) (op : BinOp) (l : Int) (rhs : Value F)
+    (hl : minInt64 ≤ l ∧ l ≤ maxInt64) : int64Ok (InfluxQL.evalIntLHS A ifd op l rhs) := by
+  cases rhs
+  case float r => exact evalFloatOp_int64Ok A op _ r
+  case int r =>
+    cases op <;> simp only [InfluxQL.evalIntLHS, cmpDefault, iAnd, iOr, iXor, toI64] <;>
+      (repeat' split) <;> simp only [int64Ok] <;>
+      first
+        | exact True.intro
+        | exact wrap64_range _
+        | exact C09.tmod_range _ hl
+        | (unfold minInt64 maxInt64; omega)
+  case uint r =>
+    cases op <;> simp only [InfluxQL.evalIntLHS, cmpDefault] <;> (repeat' split) <;> simp [int64Ok]
+  all_goals exact cmpDefault_int64Ok op
+
+theorem evalUintLHS_int64Ok (op : BinOp) (l : Nat) (rhs : Value F) :
+    int64Ok (InfluxQL.evalUintLHS A op l rhs) := by
+  cases rhs
+  case float r => exact evalFloatOp_int64Ok A op _ r
+  case int r =>
+    cases op <;> simp only [InfluxQL.evalUintLHS, cmpDefault] <;> (repeat' split) <;> simp [int64Ok]
+  case uint r =>
+    cases op <;> simp only [InfluxQL.evalUintLHS, cmpDefault] <;> (repeat' split) <;> simp [int64Ok]
+  all_goals exact cmpDefault_int64Ok op
+
+theorem evalBin_int64Ok (ifd : Bool) (op : BinOp) (a b : Value F) (ha : int64Ok a) (hb : int64Ok b) :
+    int64Ok (InfluxQL.evalBin A S ifd op a b) := by
+  have h := nilCast_int64Ok ha hb
+  unfold InfluxQL.evalBin
+  generalize nilCast a b = p at h
+  obtain ⟨x, y⟩ := p
+  cases x
+  case bool l => cases op <;> simp [evalBoolLHS, cmpDefault, int64Ok]
+  case float l =>
+    cases y <;> first | exact evalFloatOp_int64Ok A op _ _ | exact cmpDefault_int64Ok op
+  case int l => exact evalIntLHS_int64Ok A ifd op l y h.1
+  case uint l => exact evalUintLHS_int64Ok A op l y
+  case str l =>
+    cases op <;> simp only [evalStrLHS, cmpDefault] <;> (try split) <;> simp [int64Ok]
+  all_goals exact cmpDefault_int64Ok op
+
+theorem eval_literal (ifd : Bool) (V : Valuer F) (a : RExpr F) (h : a.isLiteral = true) :
+    eval A S ifd V a = .ok (InfluxQL.eval A S ifd V a) := by
+  cases a <;> first
+    | (simp [RExpr.isLiteral] at h; done)
+    | (unfold eval InfluxQL.eval; rfl)
+
+mutual
+  /-- On expressions and valuers whose integers are `int64`s the checked `Eval` never panics: it
+  computes the total model of C09 (and the result is again an `int64` if it is an integer). -/
+  theorem eval_eq (ifd : Bool) (V : Valuer F) (hV : valuerIntsOk V) :
+      ∀ e : RExpr F, intsOk e = true →
+        eval A S ifd V e = .ok (InfluxQL.eval A S ifd V e) ∧ int64Ok (InfluxQL.eval A S ifd V e)
+    | .binary op l r, h => by
+      rw [intsOk, Bool.and_eq_true] at h
+      obtain ⟨el, ol⟩ := eval_eq ifd V hV l h.1
+      obtain ⟨er, or_⟩ := eval_eq ifd V hV r h.2
+      rw [eval, el, er, InfluxQL.eval]
+      simp only [ok_bind]
+      exact ⟨evalBin_eq A S ifd _ _ _ ol or_, evalBin_int64Ok A S ifd _ _ _ ol or_⟩
+    | .paren e, h => by
+      rw [intsOk] at h
+      rw [eval, InfluxQL.eval]
+      exact eval_eq ifd V hV e h
+    | .call name args, h => by
+      rw [intsOk] at h
+      rw [eval, InfluxQL.eval]
+      cases hc : V.call with
+      | none => exact ⟨rfl, True.intro⟩
+      | some f =>
+        dsimp only
+        have hok : int64Ok ((f name (InfluxQL.evalArgs A S ifd V args)).getD .nil) := by
+          cases hf : f name (InfluxQL.evalArgs A S ifd V args) with
+          | none => exact True.intro
+          | some v => exact hV.2 f hc _ _ _ hf
+        refine ⟨?_, hok⟩
+        have hargs : (if args.length > 0 then
+              evalArgsLoop A S ifd V args 0 (List.replicate args.length .nil) else pure [])
+            = .ok (InfluxQL.evalArgs A S ifd V args) := by
+          cases args with
+          | nil => rfl
+          | cons a rest =>
+            rw [if_pos (by simp)]
+            have := evalArgsLoop_eq ifd V hV (a :: rest) h [] 0 rfl
+            rw [List.nil_append] at this
+            exact this
+        rw [hargs]
+        rfl
+    | .varRef val t, _ => by
+      rw [eval, InfluxQL.eval]
+      refine ⟨rfl, ?_⟩
+      cases hv : V.value val with
+      | none => exact True.intro
+      | some v => exact hV.1 _ _ hv
+    | .int v, h => by
+      rw [intsOk, decide_eq_true_eq] at h
+      rw [eval, InfluxQL.eval]
+      exact ⟨rfl, h⟩
+    | .bool _, _ => by rw [eval, InfluxQL.eval]; exact ⟨rfl, True.intro⟩
+    | .num _, _ => by rw [eval, InfluxQL.eval]; exact ⟨rfl, True.intro⟩
+    | .uint _, _ => by rw [eval, InfluxQL.eval]; exact ⟨rfl, True.intro⟩
+    | .regex _, _ => by rw [eval, InfluxQL.eval]; exact ⟨rfl, True.intro⟩
+    | .str _, _ => by rw [eval, InfluxQL.eval]; exact ⟨rfl, True.intro⟩
+    | .distinct _, _ => by unfold eval InfluxQL.eval; exact ⟨rfl, True.intro⟩
+    | .wildcard _, _ => by unfold eval InfluxQL.eval; exact ⟨rfl, True.intro⟩
+    | .dur _, _ => by unfold eval InfluxQL.eval; exact ⟨rfl, True.intro⟩
+    | .time _, _ => by unfold eval InfluxQL.eval; exact ⟨rfl, True.intro⟩
+    | .nil, _ => by unfold eval InfluxQL.eval; exact ⟨rfl, True.intro⟩
+    | .list _, _ => by unfold eval InfluxQL.eval; exact ⟨rfl, True.intro⟩
+    | .boundParam _, _ => by unfold eval InfluxQL.eval; exact ⟨rfl, True.intro⟩
+  theorem evalArgsLoop_eq (ifd : Bool) (V : Valuer F) (hV : valuerIntsOk V) :
+      ∀ (rest : List (RExpr F)), argsIntsOk rest = true →
+        ∀ (front : List (Value F)) (i : Int), i = (front.length : Int) →
+          evalArgsLoop A S ifd V rest i (front ++ List.replicate rest.length .nil)
+            = .ok (front ++ InfluxQL.evalArgs A S ifd V rest)
+    | [], _, front, _, _ => by simp [evalArgsLoop, InfluxQL.evalArgs]
+    | a :: rest, h, front, i, hi => by
+      rw [argsIntsOk, Bool.and_eq_true] at h
+      rw [evalArgsLoop, (eval_eq ifd V hV a h.1).1]
+      simp only [ok_bind]
+      rw [setIdx_of_eq sEvalArgs _ _ hi (by simp), List.length_cons, set_append_replicate]
+      simp only [ok_bind]
+      rw [evalArgsLoop_eq ifd V hV rest h.2 (front ++ [_]) (i + 1) (by simp [hi]), InfluxQL.evalArgs]
+      simp
+end
+
+/-! ### Reduce -/
+
+theorem reduceDurLHS₀_eq (tok : Token) (l : Int) (rhs : RExpr F) :
+    reduceDurLHS₀ A tok l rhs = .ok (InfluxQL.reduceDurLHS₀ A tok l rhs) := by
+  cases rhs <;> try rfl
+  case num r =>
+    simp only [reduceDurLHS₀]
+    split
+    · rename_i heq
+      simp only [InfluxQL.reduceDurLHS₀, heq]
+      split
+      · rfl
+      · rename_i h; rw [divI64_ok _ _ _ (by simpa using h)]; rfl
+    · rfl
+  case int r =>
+    simp only [reduceDurLHS₀]
+    split
+    · rename_i heq
+      simp only [InfluxQL.reduceDurLHS₀, heq]
+      split
+      · rfl
+      · rename_i h; rw [divI64_ok _ _ _ (by simpa using h)]; rfl
+    · rfl
+
+theorem reduceDurLHS_eq (loc : Int) (tok : Token) (l : Int) (rhs : RExpr F) :
+    reduceDurLHS A S loc tok l rhs = .ok (InfluxQL.reduceDurLHS A S loc tok l rhs) := by
+  cases rhs <;> try (simp only [reduceDurLHS, InfluxQL.reduceDurLHS]; exact reduceDurLHS₀_eq A tok l _)
+  case str s =>
+    simp only [reduceDurLHS, InfluxQL.reduceDurLHS]
+    cases S.toTime loc s with
+    | none => rfl
+    | some t => dsimp only; rw [reduceDurLHS₀_eq]; rfl
+
+theorem reduceUintUint_eq (tok : Token) (l r : Nat) :
+    reduceUintUint (F := F) tok l r = .ok (InfluxQL.reduceUintUint tok l r) := by
+  simp only [reduceUintUint]
+  split
+  · rename_i heq
+    simp only [InfluxQL.reduceUintUint, heq]
+    split
+    · rfl
+    · rename_i h; rw [divU64_ok _ _ _ (by simpa using h)]; rfl
+  · rename_i heq
+    simp only [InfluxQL.reduceUintUint, heq]
+    split
+    · rfl
+    · rename_i h; rw [remU64_ok _ _ _ (by simpa using h)]; rfl
+  · rfl
+
+theorem reduceUintLHS_eq (tok : Token) (l : Nat) (rhs : RExpr F) :
+    reduceUintLHS A tok l rhs = .ok (InfluxQL.reduceUintLHS A tok l rhs) := by
+  cases rhs <;> try rfl
+  case int r =>
+    simp only [reduceUintLHS, InfluxQL.reduceUintLHS]
+    split
+    · rfl
+    · split
+      · rfl
+      · exact reduceUintUint_eq tok l _
+  case uint r => exact reduceUintUint_eq tok l r
+
+theorem reduceIntLHS_eq (loc : Int) (tok : Token) (l : Int) (rhs : RExpr F) :
+    reduceIntLHS A S loc tok l rhs = .ok (InfluxQL.reduceIntLHS A S loc tok l rhs) := by
+  cases rhs <;> try rfl
+  case int r =>
+    simp only [reduceIntLHS]
+    split
+    · rename_i heq
+      simp only [InfluxQL.reduceIntLHS, heq]
+      split
+      · rfl
+      · rename_i h; rw [remI64_ok _ _ _ (by simpa using h)]; rfl
+    · rfl
+  case uint r =>
+    simp only [reduceIntLHS, InfluxQL.reduceIntLHS]
+    split
+    · rfl
+    · split
+      · rfl
+      · exact reduceUintLHS_eq A tok _ _
+  case str s =>
+    simp only [reduceIntLHS, InfluxQL.reduceIntLHS]
+    cases S.toTime loc s with
+    | none => rfl
+    | some t => dsimp only; rw [reduceDurLHS_eq]; rfl
+
+theorem reduceDispatch_eq (loc : Int) (tok : Token) (lhs rhs : RExpr F) :
+    reduceDispatch A S loc tok lhs rhs = .ok (InfluxQL.reduceDispatch A S loc tok lhs rhs) := by
+  cases lhs <;> try rfl
+  case dur l => exact reduceDurLHS_eq A S loc tok l rhs
+  case int l => exact reduceIntLHS_eq A S loc tok l rhs
+  case uint l => exact reduceUintLHS_eq A tok l rhs
+
+theorem reduceBinary_eq (loc : Int) (tok : Token) (lhs rhs : RExpr F) :
+    reduceBinary A S loc tok lhs rhs = .ok (InfluxQL.reduceBinary A S loc tok lhs rhs) := by
+  unfold reduceBinary InfluxQL.reduceBinary
+  generalize BinOp.ofToken tok = b
+  cases b
+  case and =>
+    dsimp only
+    by_cases h1 : (lhs.isFalseLiteral || rhs.isFalseLiteral) = true
+    · rw [if_pos h1, if_pos h1]
+    · rw [if_neg h1, if_neg h1]
+      by_cases h2 : lhs.isTrueLiteral = true
+      · rw [if_pos h2, if_pos h2]
+      · rw [if_neg h2, if_neg h2]
+        by_cases h3 : rhs.isTrueLiteral = true
+        · rw [if_pos h3, if_pos h3]
+        · rw [if_neg h3, if_neg h3]; exact reduceDispatch_eq A S loc tok lhs rhs
+  case or =>
+    dsimp only
+    by_cases h1 : (lhs.isTrueLiteral || rhs.isTrueLiteral) = true
+    · rw [if_pos h1, if_pos h1]
+    · rw [if_neg h1, if_neg h1]
+      by_cases h2 : lhs.isFalseLiteral = true
+      · rw [if_pos h2, if_pos h2]
+      · rw [if_neg h2, if_neg h2]
+        by_cases h3 : rhs.isFalseLiteral = true
+        · rw [if_pos h3, if_pos h3]
+        · rw [if_neg h3, if_neg h3]; exact reduceDispatch_eq A S loc tok lhs rhs
+  all_goals exact reduceDispatch_eq A S loc tok lhs rhs
+
+theorem reduceCallVals_eq (args : List (RExpr F)) (h : args.all RExpr.isLiteral = true) :
+    reduceCallVals A S args = .ok (args.map (InfluxQL.eval A S false Valuer.empty)) := by
+  unfold reduceCallVals
+  apply makeAndFill_eq
+  intro a ha
+  exact eval_literal A S false _ a (List.all_eq_true.1 h a ha)
+
+theorem evalArgs_eq_map (ifd : Bool) (V : Valuer F) : ∀ args : List (RExpr F),
+    InfluxQL.evalArgs A S ifd V args = args.map (InfluxQL.eval A S ifd V)
+  | [] => by rw [InfluxQL.evalArgs]; rfl
+  | a :: rest => by rw [InfluxQL.evalArgs, evalArgs_eq_map ifd V rest]; rfl
+
+mutual
+  /-- The checked `reduce` never panics: it computes the total model of C09. -/
+  theorem reduce_eq (V : Valuer F) : ∀ e : RExpr F,
+      reduce A S V e = .ok (InfluxQL.reduce A S V e)
+    | .binary tok l r => by
+      rw [reduce, reduce_eq V l, reduce_eq V r, InfluxQL.reduce]
+      simp only [ok_bind]
+      exact reduceBinary_eq A S _ tok _ _
+    | .paren e => by
+      rw [reduce, reduce_eq V e, InfluxQL.reduce]; rfl
+    | .call name args => by
+      rw [reduce, InfluxQL.reduce]
+      have hargs : (if args.length > 0 then
+            reduceArgsLoop A S V args 0 (List.replicate args.length .nil) else pure [])
+          = .ok (InfluxQL.reduceArgs A S V args) := by
+        cases args with
+        | nil => rfl
+        | cons a rest =>
+          rw [if_pos (by simp)]
+          have := reduceArgsLoop_eq V (a :: rest) [] 0 rfl
+          rw [List.nil_append] at this
+          exact this
+      rw [hargs]
+      simp only [ok_bind]
+      by_cases hlit : (InfluxQL.reduceArgs A S V args).all RExpr.isLiteral = true
+      · rw [if_pos hlit, if_pos hlit]
+        cases hc : V.call with
+        | none => rfl
+        | some f =>
+          dsimp only
+          rw [reduceCallVals_eq A S _ hlit]
+          simp only [ok_bind]
+          cases f name (List.map (InfluxQL.eval A S false Valuer.empty) (InfluxQL.reduceArgs A S V args)) <;> rfl
+      · rw [if_neg hlit, if_neg hlit]
+        rfl
+    | .varRef val ty => by
+      rw [reduce, InfluxQL.reduce]
+      cases V.value val <;> rfl
+    | .distinct _ => by unfold reduce InfluxQL.reduce; rfl
+    | .wildcard _ => by unfold reduce InfluxQL.reduce; rfl
+    | .regex _ => by unfold reduce InfluxQL.reduce; rfl
+    | .str _ => by unfold reduce InfluxQL.reduce; rfl
+    | .num _ => by unfold reduce InfluxQL.reduce; rfl
+    | .int _ => by unfold reduce InfluxQL.reduce; rfl
+    | .uint _ => by unfold reduce InfluxQL.reduce; rfl
+    | .bool _ => by unfold reduce InfluxQL.reduce; rfl
+    | .dur _ => by unfold reduce InfluxQL.reduce; rfl
+    | .time _ => by unfold reduce InfluxQL.reduce; rfl
+    | .nil => by unfold reduce InfluxQL.reduce; rfl
+    | .list _ => by unfold reduce InfluxQL.reduce; rfl
+    | .boundParam _ => by unfold reduce InfluxQL.reduce; rfl
+  theorem reduceArgsLoop_eq (V : Valuer F) :
+      ∀ (rest front : List (RExpr F)) (i : Int), i = (front.length : Int) →
+        reduceArgsLoop A S V rest i (front ++ List.replicate rest.length .nil)
+          = .ok (front ++ InfluxQL.reduceArgs A S V rest)
+    | [], front, _, _ => by simp [reduceArgsLoop, InfluxQL.reduceArgs]
+    | a :: rest, front, i, hi => by
+      rw [reduceArgsLoop, reduce_eq V a]
+      simp only [ok_bind]
+      rw [setIdx_of_eq sReduceCallArgs _ _ hi (by simp), List.length_cons, set_append_replicate]
+      simp only [ok_bind]
+      rw [reduceArgsLoop_eq V rest (front ++ [_]) (i + 1) (by simp [hi]), InfluxQL.reduceArgs]
+      simp
+end
+
+theorem Reduce_eq (V : Valuer F) (e : RExpr F) :
+    Reduce A S V e = .ok (InfluxQL.Reduce A S V e) := by
+  unfold Reduce InfluxQL.Reduce
+  rw [reduce_eq]
+  simp only [ok_bind]
+  generalize InfluxQL.reduce A S V e = x
+  cases x <;> rfl
+
+end
 
 end InfluxQL.Checked
